@@ -1,27 +1,52 @@
 #!/bin/bash
 # usage: check.sh <ID> [quick|thorough] [--replay path]
-# Rebuilds the property's harness from /repo's CURRENT working tree (hooks on,
-# seams regenerated) and runs it. Exit 0 = held, 1 = VIOLATION, 2 = harness/build error.
+# Rebuilds the property's harness from the repository's CURRENT working tree
+# (hooks on, seams regenerated) and runs it.
+# Exit 0 = held, 1 = VIOLATION, 2 = harness/build error.
+#
+# Optional environment (used for trying deliberate property-breaking changes
+# without touching /repo or /verif/evidence):
+#   VERIF_REPO=<dir>  a checkout/worktree of the repository to build against (default /repo)
+#   VERIF_OUT=<dir>   where evidence/, replays/, logs/ are written (default /verif)
 set -u
 cd /verif
 . scripts/env.sh
 ID=$1; shift
 TIER=${VERIF_TIER:-quick}
 if [ $# -gt 0 ] && [ "${1#--}" = "$1" ]; then TIER=$1; shift; fi
-case "$ID" in
-  C09|C10|C11|C12|C13) GROUP=appcheck; MAPORDER=app,keyper/shutterevents; VOS=app/app.go ;;
-  *) echo "unknown property $ID" >&2; exit 2 ;;
-esac
-mkdir -p .bin .gen logs evidence replays
-LOCK=.gen/$GROUP.lock
-exec 9>"$LOCK"; flock 9
-OV=.gen/overlay-$GROUP
+MAPORDER=""; VOS=""
+# scripts/groups.txt: <ID> <cmd dir under /verif/cmd> [<maporder pkgs>|-] [<vos files>|-]
+LINE=$(grep -E "^$ID[[:space:]]" scripts/groups.txt | head -1)
+if [ -n "${VERIF_GROUP:-}" ]; then
+  GROUP=$VERIF_GROUP; MAPORDER=${VERIF_MAPORDER:-}; VOS=${VERIF_VOS:-}
+elif [ -n "$LINE" ]; then
+  read -r _ GROUP MAPORDER VOS <<< "$LINE"
+  MAPORDER=${MAPORDER:--}; VOS=${VOS:--}
+  [ "$MAPORDER" = "-" ] && MAPORDER=""; [ "$VOS" = "-" ] && VOS=""
+else
+  echo "unknown property $ID" >&2; exit 2
+fi
+REPO=${VERIF_REPO:-/repo}
+OUT=${VERIF_OUT:-/verif}
+TAG=$(echo -n "$REPO" | md5sum | cut -c1-8)
+mkdir -p .bin .gen "$OUT/logs" "$OUT/evidence" "$OUT/replays"
+exec 9>".gen/$GROUP-$TAG.lock"; flock 9
+MODFLAG=""
+if [ "$REPO" != "/repo" ]; then
+  MF=.gen/mod-$TAG
+  mkdir -p $MF
+  sed "s|=> /repo/rolling-shutter|=> $REPO/rolling-shutter|" go.mod > $MF/go.mod
+  cp go.sum $MF/go.sum
+  MODFLAG="-modfile=$PWD/$MF/go.mod"
+fi
+OV=.gen/overlay-$GROUP-$TAG
 OVFLAG=""
 if [ -n "${MAPORDER}${VOS}" ]; then
   [ -x .bin/rewrite ] || go build -o .bin/rewrite ./cmd/rewrite || { echo "HARNESS-ERROR: cannot build rewrite" >&2; exit 2; }
-  .bin/rewrite -maporder "$MAPORDER" -vos "$VOS" -out "$OV" > logs/$ID-rewrite.log 2>&1 || { cat logs/$ID-rewrite.log >&2; echo "HARNESS-ERROR: seam generation failed (does /repo compile?)" >&2; exit 2; }
+  .bin/rewrite -repo "$REPO/rolling-shutter" -maporder "$MAPORDER" -vos "$VOS" -out "$OV" > "$OUT/logs/$ID-rewrite.log" 2>&1 || { cat "$OUT/logs/$ID-rewrite.log" >&2; echo "HARNESS-ERROR: seam generation failed (does the repository compile?)" >&2; exit 2; }
   OVFLAG="-overlay $OV/overlay.json"
 fi
-go build -tags verif $OVFLAG -o .bin/$GROUP-$ID ./cmd/$GROUP > logs/$ID-build.log 2>&1 || { tail -30 logs/$ID-build.log >&2; echo "HARNESS-ERROR: build of $GROUP failed" >&2; exit 2; }
+BIN=.bin/$GROUP-$ID-$TAG
+go build $MODFLAG -tags verif $OVFLAG -o $BIN ./cmd/$GROUP > "$OUT/logs/$ID-build.log" 2>&1 || { tail -30 "$OUT/logs/$ID-build.log" >&2; echo "HARNESS-ERROR: build of $GROUP failed" >&2; exit 2; }
 flock -u 9
-exec .bin/$GROUP-$ID "$ID" --tier "$TIER" "$@"
+VERIF_DIR="$OUT" VERIF_HOME=/verif exec $BIN "$ID" --tier "$TIER" "$@"
